@@ -162,6 +162,8 @@ func uniLits(big bool) []*literal.Literal {
 		mustLit(literal.Blob, []byte{}), mustLit(literal.Blob, []byte{0}), mustLit(literal.Blob, []byte("true")),
 	}
 	if big {
+		// (2^55, 2^56, 2^57: their varints are longer than eight bytes and agree on the first eight)
+		ls = append(ls, mustLit(literal.Int64, int64(1)<<56), mustLit(literal.Int64, int64(1)<<57))
 		ls = append(ls, mustLit(literal.Int64, int64(1)<<55), mustLit(literal.Int64, int64(math.MaxInt64)),
 			mustLit(literal.Int64, int64(math.MinInt64)), mustLit(literal.Int64, -(int64(1)<<55)-1))
 	}
